@@ -85,6 +85,7 @@ def build_strategy(gate: specgen.Gate):
         schemas: dict = {}
         shared = draw(st.lists(st.sampled_from(sorted(FIELDS)), min_size=1, max_size=3, unique=True))
         base_required = draw(st.lists(st.sampled_from(shared), max_size=len(shared), unique=True))
+        used_only: set[str] = set()
         for i, vn in enumerate(names):
             props = {k: FIELDS[k] for k in shared} if relation != "distinct_required" or draw(st.booleans()) else {}
             extra = draw(st.lists(st.sampled_from(sorted(FIELDS)), max_size=2, unique=True))
@@ -92,7 +93,11 @@ def build_strategy(gate: specgen.Gate):
                 props[k] = FIELDS[k]
             req: list[str] = []
             if relation in ("distinct_required", "overlap_optional"):
-                only = f"only{vn}"
+                # the distinguishing required field, under wire names of several styles (camelCase, kebab, @-prefixed, acronym run,
+                # names the generator has to rename because they are reserved in Python)
+                free_reserved = [r for r in ("format", "filter", "object", "max", "in", "class", "id", "type") if r not in used_only and r not in props]
+                only = draw(st.sampled_from([f"only{vn}", f"only{vn}", f"only-{vn.lower()}", f"@only{vn}", f"HTTP{vn}Code"] + free_reserved[:2]))
+                used_only.add(only)
                 props[only] = draw(st.sampled_from([{"type": "string"}, {"type": "integer"}]))
                 req = [only] + [k for k in props if k != only and draw(st.integers(0, 3)) == 0]
             elif relation == "subset":
